@@ -180,8 +180,10 @@ def originConf (Q : Ty → V → Prop) (origin : Option Ty) (r : V) : Prop :=
   | none => True
   | some ot => Q ot r
 
-theorem safe_strict {o : Opts} (h : o.safe = true) : o.strict.safe = true := by simpa [Opts.safe, Opts.strict] using h
-theorem safe_noLoss {o : Opts} (h : o.safe = true) : o.noLoss.safe = true := by simpa [Opts.safe, Opts.noLoss] using h
+theorem safe_strict {o : Opts} (h : o.safe = true) : o.strict.safe = true := by
+  simp [Opts.safe] at h; simp [Opts.safe, Opts.strict, h.1.2, h.2]
+theorem safe_noLoss {o : Opts} (h : o.safe = true) : o.noLoss.safe = true := by
+  simp [Opts.safe] at h; simp [Opts.safe, Opts.noLoss, h.1.2, h.2]
 theorem safe_norm {o : Opts} (h : o.safe = true) : o.norm.safe = true := by
   unfold Opts.norm; split <;> simpa [Opts.safe] using h
 
